@@ -624,6 +624,21 @@ pub fn judge(inv: &mut Inv, prev_clean: Option<&BTreeSet<usize>>, prev_failed: &
         }
     }
 
+    // ---- C18: the log lives at <builddir>/.n2_db (relative to the -C directory) and nowhere else
+    if sh.loads > 0 && !matches!(inv.res, Res::Panic(..)) {
+        let expect = match &proj.builddir {
+            Some(b) => format!("{}/.n2_db", b),
+            None => ".n2_db".to_string(),
+        };
+        if !Path::new(&expect).is_file() {
+            push(&mut v, "C18", "log-location", format!("the manifest was loaded but there is no log at {}", expect));
+        }
+        for stray in [".n2_db", "bd/.n2_db", "out/bd/.n2_db", "../.n2_db"] {
+            if stray != expect && Path::new(stray).exists() {
+                push(&mut v, "C18", "log-location", format!("a log appeared at {} (expected only {})", stray, expect));
+            }
+        }
+    }
     let wanted_final: BTreeSet<usize> = sh.wanted.clone();
     let unknown_targets: Vec<&String> = spec.targets.iter().filter(|t| !proj.mentioned().contains(*t)).collect();
 
